@@ -79,6 +79,8 @@ class Calc(object):
             p[0] = p[1] // p[3]
         elif p[2] in ('<<', '>>') and p[3] < 0:
             raise ParseError("negative shift count '%s'" % p[3])
+        elif p[2] == '<<' and p[3] > 1024:
+            raise ParseError("shift count '%s' too large" % p[3])
         elif p[2] == '<<':
             p[0] = p[1] << p[3]
         elif p[2] == '>>':
